@@ -401,6 +401,19 @@ func (e *ErrEvent) Error() string {
 	return e.Event.Last()
 }
 
+// setEcho marks an event received from the server as an echo of one of our
+// own messages (see the echo-message capability). This is decided right
+// before the event is handled, not when it is read: our nick may be changed
+// by an event which was still queued at the time this one was read.
+func (c *Client) setEcho(event *Event) {
+	if event == nil || c.Config.disableTracking {
+		return
+	}
+
+	event.Echo = (event.Command == PRIVMSG || event.Command == NOTICE) &&
+		event.Source != nil && event.Source.ID() == c.GetID()
+}
+
 func (c *Client) execLoop(ctx context.Context) error {
 	c.debug.Print("starting execLoop")
 	defer c.debug.Print("closing execLoop")
@@ -418,6 +431,7 @@ func (c *Client) execLoop(ctx context.Context) error {
 			for {
 				select {
 				case event = <-c.rx:
+					c.setEcho(event)
 					c.RunHandlers(event)
 
 					if err == nil && event != nil && event.Command == ERROR {
@@ -431,6 +445,7 @@ func (c *Client) execLoop(ctx context.Context) error {
 		done:
 			return err
 		case event = <-c.rx:
+			c.setEcho(event)
 			c.RunHandlers(event)
 
 			if event != nil && event.Command == ERROR {
